@@ -32,7 +32,7 @@ def determinism(prop: str, n: int, vseed: int) -> int:
     other, _ = driver.run_batches(prop, "quick", vseed, n, {}, hashseed="424242", indices=idx)
     time.sleep(1.2)
     b = driver.merge(other)
-    few = max(1, W // 5)
+    few = max(2, W // 5)
     single, _ = driver.run_batches(prop, "quick", vseed, n, {}, hashseed="0", workers=few, indices=idx)
     c = driver.merge(single)
     bad = 0
@@ -81,7 +81,7 @@ def main(argv: list[str]) -> int:
     bad = ref_selftest.run()
     for p in props:
         # C17 runs are ~100x more expensive than the others: fewer seeds in light mode
-        bad += determinism(p, (12 if p == "C17" and mode == "light" else n), vseed + 7919)
+        bad += determinism(p, (8 if p == "C17" and mode == "light" else n), vseed + 7919)
     if bad:
         print(f"selftest: {bad} problems")
         return 2
